@@ -163,6 +163,28 @@ type Op struct {
 	// db: names the lookup service starts / stops listing from now on.
 	Add []string `json:"add,omitempty"`
 	Del []string `json:"del,omitempty"`
+	// db: from now on the service holds N filler hashes under the prefix of Of
+	// (see Fill).
+	Fill []Fill `json:"fill,omitempty"`
+}
+
+// Fill says that the lookup service's database holds N additional full hashes
+// that share the 2-byte prefix of the name Of and are the SHA-256 of no name
+// that is ever queried (the database of the service may hold any full hashes;
+// the statement's quantifier asks for "distinct hashes sharing a prefix with
+// the query").  They never change what the reference says about a name; they
+// only make the answers about that prefix as long as a real service's may be.
+type Fill struct {
+	Of string `json:"of"`
+	N  int    `json:"n"`
+}
+
+// fillerHash is the i-th filler hash under prefix p: a pure function, 30
+// pseudo-random bytes behind the prefix.
+func fillerHash(p pfx, i int) hash {
+	h := sum(fmt.Sprintf("filler/%s/%d", pfxHex(p), i))
+	h[0], h[1] = p[0], p[1]
+	return h
 }
 
 // Scenario is one case.
@@ -175,6 +197,8 @@ type Scenario struct {
 	// it during the run.
 	DB   []string `json:"db"`
 	Pool []string `json:"pool"`
+	// Fill: filler hashes the database holds when the case starts.
+	Fill []Fill `json:"fill,omitempty"`
 	// FilteringOff switches rule-list filtering off (the lookups stay on).
 	FilteringOff bool `json:"filtering_off,omitempty"`
 	Ops          []Op `json:"ops"`
@@ -369,6 +393,41 @@ func Gen(t *rapid.T, tier string) any {
 	}
 	cur := append([]string(nil), sc.DB...) // what the service lists at this point of the history
 
+	// Filler hashes: 0..12 more full hashes (of no queried name) under the
+	// prefix of a listed name or of any label-suffix of a pool host (hosts,
+	// their parents, names beyond the cut), so that the answer about one prefix
+	// carries up to a dozen hashes.  A prefix with filler counts as a listed
+	// prefix for the single-prefix regime.
+	fillCnt := map[pfx]int{}
+	drawFill := func(from []string) (f Fill, ok bool) {
+		var of string
+		if len(from) > 0 && rapid.IntRange(0, 2).Draw(t, "fill_listed") > 0 {
+			of = rapid.SampledFrom(from).Draw(t, "fill_of_listed")
+		} else {
+			of = rapid.SampledFrom(universe).Draw(t, "fill_of")
+		}
+		n := rapid.IntRange(0, 12).Draw(t, "fill_n")
+		p := pfxOf(sum(of))
+		switch {
+		case n == fillCnt[p]:
+			return f, false
+		case n == 0:
+			dbPfx[p]--
+		case fillCnt[p] == 0:
+			if !admissible(p) {
+				return f, false
+			}
+			dbPfx[p]++
+		}
+		fillCnt[p] = n
+		return Fill{Of: of, N: n}, true
+	}
+	for i, n := 0, rapid.IntRange(0, 3).Draw(t, "n_fill"); i < n; i++ {
+		if f, ok := drawFill(sc.DB); ok {
+			sc.Fill = append(sc.Fill, f)
+		}
+	}
+
 	// Operations.
 	maxOps := 40
 	if tier == "thorough" {
@@ -384,6 +443,12 @@ func Gen(t *rapid.T, tier string) any {
 			// (hosts, parents, names beyond the four-label cut, public suffixes)
 			// and prefix partners become listed or stop being listed.
 			op := Op{K: "db"}
+			if rapid.IntRange(0, 3).Draw(t, "db_fill") == 0 {
+				// The number of filler hashes under one prefix changes.
+				if f, ok := drawFill(cur); ok {
+					op.Fill = append(op.Fill, f)
+				}
+			}
 			for j, m := 0, rapid.IntRange(1, 2).Draw(t, "n_dbchg"); j < m; j++ {
 				if len(cur) > 0 && rapid.IntRange(0, 2).Draw(t, "db_del") == 0 {
 					x := rapid.SampledFrom(cur).Draw(t, "db_del_name")
@@ -411,7 +476,7 @@ func Gen(t *rapid.T, tier string) any {
 				dbPfx[pfxOf(sum(x))]++
 				op.Add = append(op.Add, x)
 			}
-			if len(op.Add)+len(op.Del) > 0 {
+			if len(op.Add)+len(op.Del)+len(op.Fill) > 0 {
 				sc.Ops = append(sc.Ops, op)
 			}
 			continue
@@ -475,7 +540,9 @@ type lookup struct {
 	suffix string
 	single bool
 	db     map[hash]bool
-	byPfx  map[pfx][]hash // in database order
+	byPfx  map[pfx][]hash // in database order: the listed names' hashes, then the filler
+	named  map[pfx][]hash // hashes of listed names, in database order
+	fill   map[pfx]int    // number of filler hashes under a prefix
 
 	// snaps: per prefix, what the answers given to the current checker said
 	// about it and when (reference model of what a cache may legitimately hold).
@@ -709,6 +776,49 @@ func (r *runner) newChecker() {
 	r.lk.snaps = map[pfx][]snap{}
 }
 
+// rebuild recomputes what the service holds under prefix p.
+func (l *lookup) rebuild(p pfx) {
+	hs := append([]hash(nil), l.named[p]...)
+	for i := 0; i < l.fill[p]; i++ {
+		hs = append(hs, fillerHash(p, i))
+	}
+	if len(hs) == 0 {
+		delete(l.byPfx, p)
+	} else {
+		l.byPfx[p] = hs
+	}
+}
+
+// list makes the service list the name x (false: it did already).
+func (l *lookup) list(x string) bool {
+	h := sum(x)
+	if l.db[h] {
+		return false
+	}
+	l.db[h] = true
+	p := pfxOf(h)
+	l.named[p] = append(l.named[p], h)
+	l.rebuild(p)
+	return true
+}
+
+// setFill sets the number of filler hashes under the prefix of f.Of.
+func (l *lookup) setFill(f Fill) {
+	p := pfxOf(sum(f.Of))
+	for i := 0; i < l.fill[p]; i++ {
+		delete(l.db, fillerHash(p, i))
+	}
+	if f.N == 0 {
+		delete(l.fill, p)
+	} else {
+		l.fill[p] = f.N
+	}
+	for i := 0; i < f.N; i++ {
+		l.db[fillerHash(p, i)] = true
+	}
+	l.rebuild(p)
+}
+
 // setListed applies a "db" operation to the service.
 func (r *runner) setListed(op Op) {
 	lk := r.lk
@@ -720,24 +830,26 @@ func (r *runner) setListed(op Op) {
 		delete(lk.db, h)
 		p := pfxOf(h)
 		var keep []hash
-		for _, y := range lk.byPfx[p] {
+		for _, y := range lk.named[p] {
 			if y != h {
 				keep = append(keep, y)
 			}
 		}
 		if len(keep) == 0 {
-			delete(lk.byPfx, p)
+			delete(lk.named, p)
 		} else {
-			lk.byPfx[p] = keep
+			lk.named[p] = keep
 		}
+		lk.rebuild(p)
+	}
+	for _, f := range op.Fill {
+		lk.setFill(f)
 	}
 	for _, x := range op.Add {
-		h := sum(x)
-		if lk.db[h] {
+		if !lk.list(x) {
 			continue
 		}
-		lk.db[h] = true
-		lk.byPfx[pfxOf(h)] = append(lk.byPfx[pfxOf(h)], h)
+		h := sum(x)
 		// Reach: a name becomes listed while an answer that said "not listed" is
 		// still within the cache time.
 		for _, sn := range lk.snaps[pfxOf(h)] {
@@ -1017,8 +1129,14 @@ func (r *runner) check(i int, op Op) error {
 				break
 			}
 		}
-	} else if len(lk.byPfx[pfxOf(sum(listed))]) > 1 {
+	} else if n := len(lk.byPfx[pfxOf(sum(listed))]); n > 1 {
 		r.c.Probe("listed_with_prefix_sibling")
+		if n >= 5 {
+			r.c.Probe("listed_under_crowded_prefix")
+			if len(qs) == 0 {
+				r.c.Probe("cache_hit_blocked_crowded_prefix")
+			}
+		}
 	}
 	if r.pressure() {
 		r.c.Probe("lru_pressure")
@@ -1192,14 +1310,12 @@ func Run(t *testing.T, scAny any, c *kernel.Ctx) error {
 	}
 	defer os.RemoveAll(dir)
 	return kernel.Bubble(t, func() error {
-		lk := &lookup{suffix: sc.Suffix, single: sc.single(), db: map[hash]bool{}, byPfx: map[pfx][]hash{}, c: c}
+		lk := &lookup{suffix: sc.Suffix, single: sc.single(), db: map[hash]bool{}, byPfx: map[pfx][]hash{}, named: map[pfx][]hash{}, fill: map[pfx]int{}, c: c}
 		for _, s := range sc.DB {
-			h := sum(s)
-			if lk.db[h] {
-				continue
-			}
-			lk.db[h] = true
-			lk.byPfx[pfxOf(h)] = append(lk.byPfx[pfxOf(h)], h)
+			lk.list(s)
+		}
+		for _, f := range sc.Fill {
+			lk.setFill(f)
 		}
 		r := &runner{sc: sc, c: c, lk: lk, chk: &swapChecker{}}
 		r.newChecker()
@@ -1235,7 +1351,7 @@ func Run(t *testing.T, scAny any, c *kernel.Ctx) error {
 				}
 			case "db":
 				r.setListed(op)
-				c.Eventf("db %d add=%v del=%v", i, op.Add, op.Del)
+				c.Eventf("db %d add=%v del=%v fill=%v", i, op.Add, op.Del, op.Fill)
 			case "advance":
 				d := time.Duration(op.Ms) * time.Millisecond
 				time.Sleep(d)
@@ -1258,7 +1374,7 @@ var _ = sort.Strings
 var Prop = &kernel.Property{
 	ID:    "C19",
 	Level: "exploration",
-	Rule: "seeded histories (rapid): a lookup-service database drawn from the label-suffixes of the pool hosts (full names beyond the four-label cut and public suffixes included as entries that must not decide anything) plus brute-forced names whose SHA-256 shares the 2-byte prefix of a listed or of a clean candidate; pool hosts of 1..8 labels under ICANN (com, co.uk, org), private (github.io, blogspot.com, s3.amazonaws.com) and unknown (internal, test, single label) suffixes, mixed case; 10..80 ops = checks through Checker.Check / DNSFilter.CheckHost / the UDP request path (A, AAAA, TXT), all sharing one cache (unlimited, 1 MiB, or 10..512 bytes) with entry lifetime 1 s..1 h, clock advances 0.4 s..1 d, and changes of the service's database between checks (pool hosts, their parents, names beyond the four-label cut, public suffixes and prefix partners become listed / stop being listed); lookup faults error / malformed TXT strings derived from the host's own hashes (wrong length, non-hex, empty, split) / non-TXT records / unrelated full hashes; " +
+	Rule: "seeded histories (rapid): a lookup-service database drawn from the label-suffixes of the pool hosts (full names beyond the four-label cut and public suffixes included as entries that must not decide anything) plus brute-forced names whose SHA-256 shares the 2-byte prefix of a listed or of a clean candidate, plus 0..12 filler full hashes (of no queried name) under the prefix of listed names, pool hosts and their parents, so that one prefix carries up to a dozen hashes (initially and changed by database operations); pool hosts of 1..8 labels under ICANN (com, co.uk, org), private (github.io, blogspot.com, s3.amazonaws.com) and unknown (internal, test, single label) suffixes, mixed case; 10..80 ops = checks through Checker.Check / DNSFilter.CheckHost / the UDP request path (A, AAAA, TXT), all sharing one cache (unlimited, 1 MiB, or 10..512 bytes) with entry lifetime 1 s..1 h, clock advances 0.4 s..1 d, and changes of the service's database between checks (pool hosts, their parents, names beyond the four-label cut, public suffixes and prefix partners become listed / stop being listed); lookup faults error / malformed TXT strings derived from the host's own hashes (wrong length, non-hex, empty, split) / non-TXT records / unrelated full hashes; " +
 		"non-trivial = at least one check answered from the cache AND one lookup sent AND both a listed and a clean name checked AND at least one fault fired or the clock advanced; distinct = distinct scenario digests",
 	Gen: Gen,
 	New: func() any { return &Scenario{} },
@@ -1283,5 +1399,6 @@ var Prop = &kernel.Property{
 	},
 	FaultKinds: append([]string{"clock_advance", "db_change"}, faultKinds...),
 	ProbeNames: []string{"truth_blocked", "truth_clean", "answered_from_cache", "cache_hit_blocked", "lookup_sent", "partial_lookup", "expired_refetch", "no_candidates", "host_over_4_labels", "clean_under_listed_prefix", "listed_with_prefix_sibling", "lru_pressure", "check_failed_on_lookup_error",
-		"listed_while_clean_answer_cached", "check_after_expiry_of_changed_verdict", "older_verdict_served_within_cache_time"},
+		"listed_while_clean_answer_cached", "check_after_expiry_of_changed_verdict", "older_verdict_served_within_cache_time",
+		"listed_under_crowded_prefix", "cache_hit_blocked_crowded_prefix"},
 }
